@@ -173,6 +173,19 @@ def run_binding(acc, n):
             got = L.cplx.numpy(call(L.unitaries.rotate_psi, st, basis, space))
             if not close(got, U @ psi, 1e-9):
                 acc.viol("indexing:site0-is-not-the-leftmost-tensor-factor", dict(case, kind=kind), observed=got, expected=U @ psi)
+            if n <= 3:
+                import itertools as _it
+                mst_ = build_state("mixed", [n, 1, 1])
+                for bs in ("".join(x) for x in _it.product("XYZ", repeat=n)):
+                    Ub = R.basis_unitary(bs)
+                    for k in range(2 ** n):
+                        e = np.eye(2 ** n, dtype=complex)[k]
+                        g1 = L.cplx.numpy(call(L.unitaries.rotate_psi_inner_prod, st, bs, space, psi=c2t(e)))
+                        g2 = call(L.unitaries.rotate_rho_probs, mst_, bs, space, rho=c2t(np.outer(e, e.conj()))).numpy()
+                        acc.ev(1, nontrivial=True)
+                        if not close(g1, Ub @ e, 1e-12) or not close(g2, np.abs(Ub @ e) ** 2, 1e-12):
+                            acc.viol("indexing:accepted-array-position-k-is-not-basis-state-k", dict(case, kind=kind, k=k, basis=bs, path="per-outcome"), observed=g1, expected=Ub @ e)
+                            break
             for k in range(2 ** n):
                 e = np.eye(2 ** n, dtype=complex)[k]
                 got = L.cplx.numpy(call(L.unitaries.rotate_psi, st, basis, space, psi=c2t(e)))
